@@ -357,6 +357,14 @@ def selfref_catalogue():
     for it in ('(tap-dance 200 ())', '(tap-dance-eager 200 ())', '(macro C-S-())', '(macro C-())', '(multi)', '(fork a b ())',
                '(switch)', '(switch ())', '(one-shot 100 (multi))', '(tap-hold 1 1 (multi) (multi))', '(chord)', '(unmod)', '(unicode)'):
         out.append('(defalias kvx %s)' % it)
+    # a top-level block that may appear once, written twice: the same spelling and, where a block has two spellings, one of each
+    once = ['(defcfg)', '(defsrc a b)', '(defoverrides (a) (b))', '(defzippy-experimental x)', '(defzippy x)',
+            '(defchordsv2 (a b) c 50 all-released ())', '(defchordsv2-experimental (a b) c 50 all-released ())',
+            '(deflocalkeys-linux kvl 300)', '(defhands (left a) (right b))']
+    for a in once:
+        for b in once:
+            if a.split()[0].rstrip(')').replace('-experimental', '') == b.split()[0].rstrip(')').replace('-experimental', ''):
+                out.append('(defcfg concurrent-tap-hold yes)' * (0 if 'defcfg' in a else 1) + a + '\n' + b)
     for sq in ('(C-S-())', '(C-S- ())', '(S-())', '(O-())', '(O-(a))', '(C-O-(a b))', '(S-(a) C-())', '()'):
         out.append('(defvirtualkeys kvv x) (defseq kvv %s)' % sq)
     # the include form in every place that reads one (top level, defchordsv2): no name, a list, a missing file, a file of the
